@@ -133,14 +133,17 @@ def validate(prop, jobs=16):
             tasks_cat.append((e2, [prop]))
     tasks_seed = [(d, prop) for d in seeds_for(prop)]
     tasks_ben = [(f, prop) for f in benign_files()]
-    res_cat, res_seed, res_ben = [], [], []
+    tasks_mut = [(m, prop) for m in mutation_corpus(prop)]
+    res_cat, res_seed, res_ben, res_mut = [], [], [], []
     with cf.ProcessPoolExecutor(max_workers=jobs) as ex:
         f1 = [ex.submit(run_entry, t) for t in tasks_cat]
         f2 = [ex.submit(run_seed, t) for t in tasks_seed]
         f3 = [ex.submit(run_benign, t) for t in tasks_ben]
+        f4 = [ex.submit(run_mutant, t) for t in tasks_mut]
         res_cat = [f.result() for f in f1]
         res_seed = [f.result() for f in f2]
         res_ben = [f.result() for f in f3]
+        res_mut = [f.result() for f in f4]
     fixtures = []
     summ = {'mutants_breaking_run': 0, 'mutants_breaking_correct': 0, 'mutants_benign_run': 0,
             'mutants_benign_correct': 0, 'seeds_run': 0, 'seeds_detected': 0, 'skipped': 0}
@@ -179,7 +182,56 @@ def validate(prop, jobs=16):
             fixtures.append({'name': 'behaviour-preserving refactoring %s' % name, 'ok': False,
                              'why': 'the check raised an alarm: ' + ' | '.join(
                                  l for l in text.split('\n') if l.startswith(('VIOLATION', 'ANALYSIS')))[:300]})
+    summ['corpus_mutants_run'] = summ['corpus_mutants_as_expected'] = 0
+    for mid, status, text in res_mut:
+        if status == 'SKIP':
+            summ['skipped'] += 1
+            continue
+        summ['corpus_mutants_run'] += 1
+        if status == 'OK':
+            summ['corpus_mutants_as_expected'] += 1
+        else:
+            fixtures.append({'name': 'mutation corpus %s' % mid, 'ok': False,
+                             'why': ('a mutant this check used to report is no longer reported' if status == 'MISS' else
+                                     'a mutant triaged as behaviour-preserving raises an alarm: ' + ' | '.join(
+                                         l for l in text.split('\n') if l.startswith(('VIOLATION', 'ANALYSIS')))[:300])})
     return summ, fixtures
+
+
+def mutation_corpus(prop):
+    """Stored single-site mutants (selftest/mutation_corpus.json, exported from the mutation experiment): those this
+    property's check reported when the corpus was frozen must still be reported ('detect'), those triaged by hand as
+    behaviour-preserving must stay silent ('equivalent')."""
+    f = os.path.join(VERIF, 'selftest', 'mutation_corpus.json')
+    try:
+        d = json.load(open(f))
+    except (OSError, ValueError):
+        return []
+    return [m for m in d['mutants'] if prop in m.get('detect', ()) or prop in m.get('equivalent', ())]
+
+
+def run_mutant(args):
+    m, prop = args
+    try:
+        with open(os.path.join(REPO, m['file'])) as f:
+            src = f.read()
+    except OSError:
+        return m['id'], 'SKIP', ''
+    if src[m['start']:m['end']] != m['old']:
+        # the file changed since the corpus was frozen: locate the unique occurrence of the context instead
+        ctx_ = m.get('context')
+        if not ctx_ or src.count(ctx_) != 1:
+            return m['id'], 'SKIP', ''
+        a = src.index(ctx_) + m['context_offset']
+        if src[a:a + len(m['old'])] != m['old']:
+            return m['id'], 'SKIP', ''
+        new = src[:a] + m['new'] + src[a + len(m['old']):]
+    else:
+        new = src[:m['start']] + m['new'] + src[m['end']:]
+    rc, out = _run_variant(prop, {m['file']: new})
+    want_detect = prop in m.get('detect', ())
+    ok = (rc == 1) if want_detect else (rc == 0)
+    return m['id'], ('OK' if ok else ('MISS' if want_detect else 'ALARM')), ('' if ok else out)
 
 
 def benign_files():
